@@ -93,6 +93,22 @@ Lookup(h) == IF h \in DOMAIN cache THEN [src |-> "cache", c |-> cache[h]]
              ELSE [src |-> "miss", c |-> 0]
 CacheAfter(h) == Without(cache, {h})
 
+\* Environment option "lazy" (exhaustive safety checking): the cache and the network are not represented; instead
+\* every lookup may hit (the adversary, who can send any valid node at any time, has just delivered the node whose
+\* hash is asked for) or fall through to the DB (not delivered / evicted).  For safety this covers EVERY delivery
+\* schedule of valid nodes -- delays, duplicates, reordering, evictions, unlimited in number -- because the syncers
+\* observe their environment only through these lookups and nodes of other hashes are never looked up.
+Lazy == "lazy" \in cfg.faults
+StoreOnly(h) == IF h \in DOMAIN db THEN [src |-> "db", c |-> db[h]] ELSE [src |-> "miss", c |-> 0]
+Lookups(h) ==
+    IF Lazy THEN {StoreOnly(h)} \cup (IF h \in Ids THEN {[src |-> "cache", c |-> h]} ELSE {})
+                \cup (IF "poison" \in Threats THEN {[src |-> "cache", c |-> x] : x \in Ids} ELSE {})
+    ELSE {Lookup(h)}
+\* effect of lookup result r for hash h on the cache (the entry is removed) and on the availability history
+LookupEffect(h, r) ==
+    /\ cache' = IF r.src = "cache" /\ ~Lazy THEN CacheAfter(h) ELSE cache
+    /\ avail' = IF r.src = "cache" /\ Lazy THEN avail \cup {r.c} ELSE avail
+
 NoCur == [h |-> 0, c |-> 0, i |-> 0, miss |-> <<>>, found |-> <<>>, clean |-> TRUE]
 Ev(a, in, out) == [a |-> a, in |-> in, out |-> out]
 Note(r) == hist' = Log(hist, r)
@@ -113,6 +129,7 @@ Init ==
 
 Running == result = "running"
 envUnch  == UNCHANGED <<cfg, db, pending, avail, budget, result, rec>>
+envUnchL == UNCHANGED <<cfg, db, pending, budget, result, rec>>       \* for steps that do a lookup
 syncUnch == UNCHANGED <<cfg, db, pc, result, rec, missing, existing, todo, may, cur, checked, newMissing, newEl, retry>>
 singleLocalsUnch == UNCHANGED <<checked, newMissing, newEl, retry>>
 
@@ -128,7 +145,7 @@ Intercept(x) ==
 
 \* an honest peer answers a request
 DeliverHonest(h) ==
-    /\ Running /\ h \in pending /\ "batch" \notin cfg.faults
+    /\ Running /\ ~Lazy /\ h \in pending /\ "batch" \notin cfg.faults
     /\ Intercept(h) /\ pending' = pending \ {h}
     /\ UNCHANGED budget /\ syncUnch
 
@@ -138,7 +155,7 @@ LogAll(h, S) == IF S = {} THEN h
                 ELSE LET x == CHOOSE y \in S : \A z \in S : y <= z IN
                      LogAll(Log(h, Ev("Deliver", [x |-> x], [acc |-> TRUE, key |-> x])), S \ {x})
 DeliverAllHonest ==
-    /\ Running /\ "batch" \in cfg.faults /\ pending # {}
+    /\ Running /\ ~Lazy /\ "batch" \in cfg.faults /\ pending # {}
     /\ cache' = [x \in pending |-> x] @@ cache
     /\ avail' = avail \cup pending
     /\ hist' = LogAll(hist, pending)
@@ -147,18 +164,18 @@ DeliverAllHonest ==
 \* the adversary sends any bytes at any time: x = 0 invalid/undecodable, otherwise any valid node (a node of the
 \* target trie that was or was not requested, a duplicate, a node of another trie, a forged variant)
 DeliverAdv(x) ==
-    /\ Running /\ budget > 0 /\ budget' = budget - 1
+    /\ Running /\ ~Lazy /\ budget > 0 /\ budget' = budget - 1
     /\ Intercept(x) /\ UNCHANGED pending /\ syncUnch
 
 \* an answer is lost (the syncer repeats its requests)
 Lose(h) ==
-    /\ Running /\ "lose" \in cfg.faults /\ budget > 0 /\ budget' = budget - 1
+    /\ Running /\ ~Lazy /\ "lose" \in cfg.faults /\ budget > 0 /\ budget' = budget - 1
     /\ h \in pending /\ pending' = pending \ {h}
     /\ UNCHANGED <<cache, avail, hist>> /\ syncUnch
 
 \* the (bounded) cache evicts an entry
 Evict(h) ==
-    /\ Running /\ "evict" \in cfg.faults /\ budget > 0 /\ budget' = budget - 1
+    /\ Running /\ ~Lazy /\ "evict" \in cfg.faults /\ budget > 0 /\ budget' = budget - 1
     /\ h \in DOMAIN cache /\ cache' = Without(cache, {h})
     /\ Note(Ev("Evict", [h |-> h], [x |-> 0]))
     /\ UNCHANGED <<pending, avail>> /\ syncUnch
@@ -166,14 +183,14 @@ Evict(h) ==
 \* THREAT (not a behaviour of the real interceptor): content x is stored under another key.  Used to show that
 \* the invariants below are sensitive to exactly the mechanism the property names.
 Poison(k, x) ==
-    /\ Running /\ "poison" \in Threats /\ budget > 0 /\ budget' = budget - 1
+    /\ Running /\ ~Lazy /\ "poison" \in Threats /\ budget > 0 /\ budget' = budget - 1
     /\ k \in Ids /\ x \in Ids /\ k # x
     /\ cache' = (k :> x) @@ cache /\ avail' = avail \cup {x}
     /\ Note(Ev("Poison", [k |-> k, x |-> x], [x |-> 0]))
     /\ UNCHANGED pending /\ syncUnch
 
 Request(hs) ==
-    /\ pending' = pending \cup (hs \cap Target)      \* honest peers hold the requested trie
+    /\ pending' = IF Lazy THEN pending ELSE pending \cup (hs \cap Target)      \* honest peers hold the requested trie
     /\ Note(Ev("Request", [hs |-> hs], [missing |-> missing, existing |-> DOMAIN existing]))
 
 Return(res) ==
@@ -194,15 +211,15 @@ D_Start ==
 \* processMissingHashes: one iteration of `for hash := range d.missingHashes`
 D_PMGet(h) ==
     /\ Running /\ pc = "d_pm" /\ h \in todo
-    /\ LET r == Lookup(h) IN
+    /\ \E r \in Lookups(h) :
        /\ todo' = todo \ {h}
        /\ IF r.src = "miss"
-          THEN UNCHANGED <<missing, existing, cache>>
+          THEN UNCHANGED <<missing, existing>>
           ELSE /\ missing' = missing \ {h}
                /\ existing' = (r.c :> TRUE) @@ existing        \* keyed by n.getHash(), a fresh node
-               /\ cache' = IF r.src = "cache" THEN CacheAfter(h) ELSE cache
+       /\ LookupEffect(h, r)
        /\ Note(Ev("Get", [h |-> h], [src |-> r.src]))
-    /\ UNCHANGED <<pc, may, cur>> /\ envUnch /\ singleLocalsUnch
+    /\ UNCHANGED <<pc, may, cur>> /\ envUnchL /\ singleLocalsUnch
 
 D_PMEnd ==
     /\ Running /\ pc = "d_pm" /\ todo = {}
@@ -221,19 +238,19 @@ D_PEPick(e) ==
 \* element.loadChildren(d.getNode): one child
 Load(nextpc) ==
     /\ cur.i <= Len(Kids(cur.c))
-    /\ LET x == Kids(cur.c)[cur.i]
-           r == Lookup(x) IN
+    /\ LET x == Kids(cur.c)[cur.i] IN
+       \E r \in Lookups(x) :
        /\ cur' = [cur EXCEPT !.i = @ + 1,
                              !.miss  = IF r.src = "miss" THEN Append(@, x) ELSE @,
                              !.found = IF r.src = "miss" THEN @ ELSE Append(@, r.c),
                              !.clean = @ /\ (r.src = "miss" \/ r.c = x)]
-       /\ cache' = IF r.src = "cache" THEN CacheAfter(x) ELSE cache
+       /\ LookupEffect(x, r)
        /\ Note(Ev("Get", [h |-> x], [src |-> r.src]))
     /\ pc' = nextpc
 
 D_Load ==
     /\ Running /\ pc = "d_ld" /\ Load("d_ld")
-    /\ UNCHANGED <<missing, existing, todo, may>> /\ envUnch /\ singleLocalsUnch
+    /\ UNCHANGED <<missing, existing, todo, may>> /\ envUnchL /\ singleLocalsUnch
 
 \* after loadChildren, the hard cap: `if len(missingChildrenHashes) > 0 && len(d.missingHashes) > cap { break }`.
 \* The element stays in existingNodes; the children found stay attached to it and nothing else keeps them.
@@ -305,20 +322,20 @@ S_Pick(h) ==
     /\ Running /\ pc = "s_in" /\ h \in (todo \cup may) \cap NodesForTrie
     /\ todo' = todo \ {h} /\ may' = may \ {h}
     /\ IF h \in checked
-       THEN UNCHANGED <<pc, cur, checked, cache, hist>>
+       THEN UNCHANGED <<pc, cur, checked, cache, avail, hist>>
        ELSE IF h \in DOMAIN existing
        THEN \* received: the node kept in memory
             /\ cur' = [h |-> h, c |-> h, i |-> 1, miss |-> <<>>, found |-> <<>>, clean |-> existing[h]]
             /\ checked' = checked \cup {h} /\ pc' = "s_ld"
-            /\ UNCHANGED <<cache, hist>>
-       ELSE LET r == Lookup(h) IN
+            /\ UNCHANGED <<cache, avail, hist>>
+       ELSE \E r \in Lookups(h) :
             /\ Note(Ev("Get", [h |-> h], [src |-> r.src]))
-            /\ cache' = IF r.src = "cache" THEN CacheAfter(h) ELSE cache
+            /\ LookupEffect(h, r)
             /\ IF r.src = "miss"
                THEN UNCHANGED <<pc, cur, checked>>
                ELSE /\ cur' = [h |-> h, c |-> r.c, i |-> 1, miss |-> <<>>, found |-> <<>>, clean |-> TRUE]
                     /\ checked' = checked \cup {h} /\ pc' = "s_ld"
-    /\ UNCHANGED <<missing, existing, newMissing, newEl, retry>> /\ envUnch
+    /\ UNCHANGED <<missing, existing, newMissing, newEl, retry>> /\ envUnchL
 
 \* currentNode.loadChildren(ts.getNode): a child that is a received entry of nodesForTrie is taken from memory
 S_LoadMem ==
@@ -331,7 +348,7 @@ S_Load ==
     /\ Running /\ pc = "s_ld" /\ cur.i <= Len(Kids(cur.c))
     /\ Kids(cur.c)[cur.i] \notin DOMAIN existing
     /\ Load("s_ld")
-    /\ UNCHANGED <<missing, existing, todo, may, checked, newMissing, newEl, retry>> /\ envUnch
+    /\ UNCHANGED <<missing, existing, todo, may, checked, newMissing, newEl, retry>> /\ envUnchL
 
 \* `for _, hash := range currentMissingNodes { missingNodes[hash]; if len(missingNodes) > cap { hardcap; break } }`
 RECURSIVE AddUntilCap(_, _, _)
